@@ -365,7 +365,7 @@ pub fn run_case(case: &Case) -> Outcome {
             }
             Op::CallTwinX(shape, k) => {
                 twin_calls += 1;
-                let shape = *shape % 6;
+                let shape = *shape % 10;
                 let got = real::top_call(NKey::TwinX(shape, *k), || real::twin_x(&db, shape, *k));
                 let want = model_eval(&st, case, |e| bodies::twin_x_value(e, shape, *k));
                 check_call!("C04", NKey::TwinX(shape, *k), got, want);
